@@ -1,15 +1,17 @@
-"""C13 - I/O failures are propagated; truncation is a parse error (MP4 half; the WebP half is pending)."""
+"""C13 - I/O failures are propagated; truncation is a parse error (mp4f area: MP4 sanitizer; webp area: `wcount`/`wfault` lines)."""
 import random
 import mp4props as P
+import webpgen as W
 from mp4gen import *
 
 ID = "C13"
 AREA = "mp4f"
-COQ_TARGETS = ["theories/Props/C13.vo", "theories/Mp4/SanB.vo"]
+AREAS = ["mp4f", "webp"]
+COQ_TARGETS = ["theories/Props/C13.vo", "theories/Props/C13w.vo", "theories/Mp4/SanB.vo"]
 REQUIRES = ["From Coq Require Import List NArith ZArith Bool.", "From Coq.Strings Require Import Byte.",
             "From MS Require Import Base.Bytes Base.Outcome Base.Prog Base.ProgSpec Base.BufLevel Mp4.Header Mp4.Box Mp4.San Mp4.SanB Props.C13.",
             "Import ListNotations.", "Open Scope N_scope."]
-COQCHK = ["MS.Props.C13"]
+COQCHK = ["MS.Props.C13", "MS.Props.C13w"]
 THEOREMS = [
     ("C13_fault_generic", """forall (A : Type) (T : perr -> Prop) (p : prog A), propagating T p ->
       forall (R : reader) (s : rst R) (k : nat) (e : ioerr),
@@ -33,7 +35,20 @@ THEOREMS = [
       lenient = true /\\
       exists n pos, pos <= ilen inp /\\ max_seek < pos + n /\\
         e = (if (9223372036854775807 <? n) && (18446744073709551615 <? pos + n) then EInvalidData else EInvalidInput)"""),
+    ("C13_fault_propagates_webp", """forall (lossless : N -> N -> bytes -> res unit) (allow : bool) (fuel : nat) (R : reader) (s : rst R) (k : nat) (e : ioerr),
+      let p := webp_prog lossless allow fuel in
+      ((op_count R p s <= k)%nat /\\ run_fault R p s k e = run R p s)
+      \\/ ((k < op_count R p s)%nat /\\
+          (fst (run_fault R p s k e) = EIo e \\/
+           (e = EUnexpectedEof /\\ fst (run_fault R p s k e) = EParse TruncatedChunk)))"""),
+    ("C13_reader_error_propagates_webp", """forall (lossless : N -> N -> bytes -> res unit) (allow : bool) (fuel : nat) (R : reader) (s : rst R) (o : op) (e : ioerr),
+      let p := webp_prog lossless allow fuel in
+      first_err R p s = Some (o, e) ->
+      fst (run R p s) = EIo e \\/ (e = EUnexpectedEof /\\ fst (run R p s) = EParse TruncatedChunk)"""),
 ]
+_WREQ = ["From Coq Require Import List NArith Bool.", "From Coq.Strings Require Import Byte.",
+         "From MS Require Import Base.Bytes Base.Outcome Base.Prog Base.ProgSpec Webp.Container Props.C13w.", "Open Scope N_scope."]
+REQUIRES_FOR = {"C13_fault_propagates_webp": _WREQ, "C13_reader_error_propagates_webp": _WREQ}
 TRUSTED = [
     "Coq 8.16.1 kernel (coqc; coqchk in the thorough tier); vm_compute only in Examples; no native_compute",
     "axioms: none (Print Assumptions = Closed under the global context for every theorem)",
@@ -55,7 +70,7 @@ ASSUMPTIONS = [
     "stream positions and lengths are u64",
 ]
 KINDS = ["Other", "PermissionDenied", "TimedOut", "WouldBlock", "InvalidData", "UnexpectedEof"]
-RULE = ("~60 MP4 inputs (the unit-test shapes and their neighbours: valid rewrites, moov before mdat, 64-bit and until-EOF ftyp/moov/mdat so that "
+RULE = ("MP4: ~60 inputs (the unit-test shapes and their neighbours: valid rewrites, moov before mdat, 64-bit and until-EOF ftyp/moov/mdat so that "
         "stream_len/stream_position are exercised, uuid headers, multiple moov/mdat, free/skip/meta/meco, invalid layouts, bad ftyp/moov trees; "
         "size-field pathologies; truncated files; sparse streams with multi-GiB boxes and skips beyond 2^64), each through the strict and/or the "
         "seek-style sparse reader; for EVERY inner operation index k of the fault-free run (read/skip/stream_position/stream_len calls on the "
@@ -66,7 +81,10 @@ EXHAUSTIVE = {"quick": True, "thorough": True}
 XCHECK_N = 16
 NOTES = ["exhaustive = every inner operation index x every listed error kind x both entry points for each input of the corpus; the theorems "
          "cover every reader, state, index and kind",
-         "WebP half pending: C13_fault_propagates_webp is an instance of C13_fault_generic once `propagating (webp_prog ..)` is shown"]
+         "WebP half: C13_fault_propagates_webp / C13_reader_error_propagates_webp are about the container programme Webp/Container.v (the lossless "
+         "validator is a pure parameter there: the model reads the chunk body with one read operation and hands the bytes over, the code pulls them "
+         "through its 4 KiB bit buffer); fault indices of model and code therefore do not align and the `wfault` lines are judged by the oracle "
+         "only (every inner operation index x 6 kinds on ~25 files), not compared with a model run"]
 
 U64 = 2**64 - 1
 
@@ -330,3 +348,140 @@ LEVEL_NOTE = ("WebP half PENDING (no webp programme model yet; C13_fault_generic
               "No axioms.")
 TECHNIQUE = "Coq proof by induction on the free-monad programme + syntactic traversal tactic + exhaustive-fault-index differential check against the real sanitizer"
 DESIGN_REF = "DESIGN.md section 7 (C13), 3.1, Appendix A/B"
+
+
+# ---------------------------------------------------------------------- WebP half (webp area)
+_mp4f = dict(gen=gen, same=same, classify=classify, nontrivial=nontrivial, oracle=oracle, search=search, coq_bool=coq_bool)
+
+
+def _is_w(line):
+    return line.startswith(("wcount ", "wfault "))
+
+
+def area_of(line):
+    return "webp" if _is_w(line) else "mp4f"
+
+
+def _wargs(f, rd="lenient", allow=True):
+    return W.case_line(rd, allow, f).split(" ", 1)[1].rsplit(" ", 1)[0]     # `<reader> <allow> <len> <exts>`
+
+
+def wcorpus(run):
+    out = []
+    fs = W.valid_files()
+    for i, f in enumerate(fs):
+        out.append((_wargs(f, "strict" if i % 2 else "lenient"), "valid"))
+    f0 = fs[0]
+    for k in (0, 5, 11, 12, 15, 19, 20, len(f0) - 1):
+        out.append((_wargs(f0[:k], "strict" if k % 2 else "lenient"), "truncated"))
+    big = max(fs, key=len)
+    for k in range(13, len(big), 7):
+        out.append((_wargs(big[:k], "lenient"), "truncated"))
+    # odd-sized chunks (pad byte reads), unknown trailing chunks, a chunk declared longer than the input (seek-style skip)
+    out.append((_wargs(W.riff(W.mk(b"VP8 ", odd=True) + W.mk(b"UNKN", odd=True))), "pads"))
+    out.append((_wargs(W.riff(W.mk(b"VP8 ", odd=True) + W.mk(b"UNKN", odd=True)), allow=False), "pads"))
+    out.append((_wargs(W.riff(W.chunk(b"VP8 ", b"\1\2")[:-1] , size=100), "lenient"), "overrun"))
+    out.append((_wargs(W.riff(W.chunk(b"VP8 ", b"\1\2")[:-1], size=100), "strict"), "overrun"))
+    # lossless payloads: a valid one and garbage (the bit buffer pulls bytes through the chunk data reader)
+    out.append((_wargs(W.riff(W.chunk(b"VP8L", W.vp8l_payload(2, 3, bytes(range(40)))))), "lossless-garbage"))
+    out.append((_wargs(W.riff(W.chunk(b"VP8X", W.vp8x_payload(W.ALPHA, 2, 3)) + W.chunk(b"ALPH", b"\1" + bytes(range(30))) + W.mk(b"VP8 "))), "lossless-garbage"))
+    seen, res = set(), []
+    for a, t in out:
+        if a not in seen:
+            seen.add(a)
+            res.append((a, t))
+    return res
+
+
+def wcounts(run, args_list):
+    run.use_area("webp")
+    res = run.harness(["c%d wcount %s" % (i, a) for i, a in enumerate(args_list)])
+    run.use_area("mp4f")
+    out = []
+    for i in range(len(args_list)):
+        r = res.get("c%d" % i, "")
+        n = int(r.split()[0][2:]) if r.startswith("n=") else None
+        out.append((n, r.split(" ", 1)[1] if n is not None else r))
+    return out
+
+
+def gen(run):
+    yield from _mp4f["gen"](run)
+    cs = wcorpus(run)
+    for (a, tag), (n, _) in zip(cs, wcounts(run, [a for a, _ in cs])):
+        yield "wcount " + a, "webp-fault-free-" + tag
+        if n is None:
+            continue
+        for k in range(n + 2):
+            for kind in KINDS:
+                yield "wfault %d %s %s" % (k, kind, a), "webp-fault-" + tag
+
+
+def same(line, impl, model):
+    return True if _is_w(line) else _mp4f["same"](line, impl, model)
+
+
+def classify(line, impl):
+    if not _is_w(line):
+        return _mp4f["classify"](line, impl)
+    t = impl.split()
+    if t and t[0].startswith("n="):
+        t = t[1:]
+    if not t:
+        return "webp-missing"
+    return "webp-" + (t[0] if t[0] != "err" else "err-" + t[1] + "-" + (t[2].split(":")[0] if len(t) > 2 else ""))
+
+
+def nontrivial(line, impl):
+    return (line.startswith("wfault") and impl.startswith("err")) if _is_w(line) else _mp4f["nontrivial"](line, impl)
+
+
+def coq_bool(line, model_out):
+    return None if _is_w(line) else _mp4f["coq_bool"](line, model_out)
+
+
+def _woracle(run, pairs):
+    base = {}
+    for line, impl in pairs:
+        if line.startswith("wcount ") and impl.startswith("n="):
+            base[line[7:]] = (int(impl.split()[0][2:]), impl.split(" ", 1)[1])
+    need = []
+    for line, _ in pairs:
+        if line.startswith("wfault "):
+            a = line.split(" ", 3)[3]
+            if a not in base and a not in need:
+                need.append(a)
+    for a, nr in zip(need, wcounts(run, need) if need else []):
+        base[a] = nr
+    out = []
+    for line, impl in pairs:
+        if impl in ("panic", "missing", "", "timeout") or impl.startswith("unknown"):
+            out.append((False, "no result / panic: %s" % impl[:100]))
+        elif line.startswith("wcount "):
+            r = impl.split(" ", 1)[1] if impl.startswith("n=") else impl
+            out.append((not r.startswith("err io"), "fault-free in-memory run returned %s" % r))
+        else:
+            t = line.split(" ", 3)
+            k, kind, a = int(t[1]), t[2], t[3]
+            n, r0 = base.get(a, (None, "missing"))
+            if n is None:
+                out.append((False, "no fault-free observation: %s" % r0[:100]))
+            elif k < n:
+                ok = impl == "err io " + kind or (kind == "UnexpectedEof" and impl == "err parse TruncatedChunk")
+                out.append((ok, "webp: fault %s at inner operation %d of %d gave `%s`" % (kind, k, n, impl[:80])))
+            else:
+                out.append((impl == r0, "webp: fault index %d beyond the %d operations of the run, `%s` differs from fault-free `%s`" % (k, n, impl[:60], r0[:60])))
+    return out
+
+
+def oracle(run, pairs):
+    wi = [i for i, (l, _) in enumerate(pairs) if _is_w(l)]
+    mi = [i for i, (l, _) in enumerate(pairs) if not _is_w(l)]
+    res = [None] * len(pairs)
+    if mi:
+        for i, r in zip(mi, _mp4f["oracle"](run, [pairs[i] for i in mi])):
+            res[i] = r
+    if wi:
+        for i, r in zip(wi, _woracle(run, [pairs[i] for i in wi])):
+            res[i] = r
+    return res
